@@ -226,3 +226,119 @@ pub fn vusizes(v: &Value) -> Vec<usize> {
 pub fn catch<T>(f: impl FnOnce() -> T + std::panic::UnwindSafe) -> Option<T> {
     std::panic::catch_unwind(f).ok()
 }
+
+/// Path of the crate under test (`$VERIF_REPO`, default `/repo`).
+pub fn repo_path() -> String {
+    std::env::var("VERIF_REPO").unwrap_or_else(|_| "/repo".to_string())
+}
+
+/// Integer constants written in the given source files of the crate under test, read at run time
+/// (`files` are relative to the crate root, e.g. `"src/common.rs"`): decimal, hex (`0x..`), octal, binary
+/// literals with or without `_` and type suffix, shifts `1 << n` / `1usize << n`, and `u8/u16/u32::MAX`.
+/// Code under `#[cfg(test)] mod tests` and comments are skipped.  The result is sorted and free of duplicates.
+/// Generators use it to aim sizes, counts and values at the boundaries the current source actually contains
+/// (each literal and its neighbours), so that a threshold introduced by a change is reached without anybody
+/// having to know it in advance.  A file that cannot be read contributes nothing.
+pub fn source_literals(files: &[&str]) -> Vec<u64> {
+    let mut out: Vec<u64> = Vec::new();
+    for f in files {
+        let text = match std::fs::read_to_string(format!("{}/{}", repo_path(), f)) {
+            Ok(t) => t,
+            Err(_) => continue,
+        };
+        let text = match text.find("#[cfg(test)]\nmod tests") {
+            Some(i) => text[..i].to_string(),
+            None => text,
+        };
+        let mut code = String::new();
+        for line in text.lines() {
+            let line = match line.find("//") {
+                Some(i) => &line[..i],
+                None => line,
+            };
+            code.push_str(line);
+            code.push('\n');
+        }
+        let b: Vec<char> = code.chars().collect();
+        let mut i = 0;
+        let mut toks: Vec<(usize, u64)> = Vec::new(); // (position, value)
+        while i < b.len() {
+            let c = b[i];
+            let prev_ident = i > 0 && (b[i - 1].is_alphanumeric() || b[i - 1] == '_' || b[i - 1] == '.');
+            if c.is_ascii_digit() && !prev_ident {
+                let start = i;
+                let mut s = String::new();
+                while i < b.len() && (b[i].is_ascii_alphanumeric() || b[i] == '_') {
+                    s.push(b[i]);
+                    i += 1;
+                }
+                // a float such as 2.55 is not an integer constant
+                if i + 1 < b.len() && b[i] == '.' && b[i + 1].is_ascii_digit() {
+                    while i < b.len() && (b[i].is_ascii_alphanumeric() || b[i] == '.' || b[i] == '_') {
+                        i += 1;
+                    }
+                    continue;
+                }
+                let s = s.replace('_', "");
+                let (radix, digits) = if let Some(r) = s.strip_prefix("0x") {
+                    (16, r.to_string())
+                } else if let Some(r) = s.strip_prefix("0o") {
+                    (8, r.to_string())
+                } else if let Some(r) = s.strip_prefix("0b") {
+                    (2, r.to_string())
+                } else {
+                    (10, s.clone())
+                };
+                let mut d = digits.as_str();
+                for suf in ["usize", "isize", "u128", "i128", "u64", "i64", "u32", "i32", "u16", "i16", "u8", "i8"] {
+                    if let Some(r) = d.strip_suffix(suf) {
+                        d = r;
+                        break;
+                    }
+                }
+                if let Ok(v) = u64::from_str_radix(d, radix) {
+                    toks.push((start, v));
+                }
+                continue;
+            }
+            i += 1;
+        }
+        for (k, &(_, v)) in toks.iter().enumerate() {
+            out.push(v);
+            // `a << n`
+            if k + 1 < toks.len() {
+                let (p0, p1) = (toks[k].0, toks[k + 1].0);
+                let between: String = b[p0..p1].iter().collect();
+                if between.contains("<<") && between.len() < 24 && toks[k + 1].1 < 64 {
+                    if let Some(x) = v.checked_shl(toks[k + 1].1 as u32) {
+                        out.push(x);
+                    }
+                }
+            }
+        }
+        for (name, v) in [("u8::MAX", u8::MAX as u64), ("u16::MAX", u16::MAX as u64), ("u32::MAX", u32::MAX as u64),
+                          ("i8::MAX", i8::MAX as u64), ("i16::MAX", i16::MAX as u64), ("i32::MAX", i32::MAX as u64)] {
+            if code.contains(name) {
+                out.push(v);
+            }
+        }
+    }
+    out.sort_unstable();
+    out.dedup();
+    out
+}
+
+/// `source_literals` widened to each value's neighbours (v-1, v, v+1), optionally capped.
+pub fn source_boundaries(files: &[&str], cap: u64) -> Vec<u64> {
+    let mut out = Vec::new();
+    for v in source_literals(files) {
+        for x in [v.saturating_sub(1), v, v.saturating_add(1)] {
+            if x <= cap {
+                out.push(x);
+            }
+        }
+    }
+    out.sort_unstable();
+    out.dedup();
+    out
+}
